@@ -41,6 +41,48 @@ theorem findSome_mem {α β : Type} (l : List α) (f : α → Option β) (b : β
     · rename_i y hy; cases h; exact ⟨x, List.mem_cons_self, hy⟩
     · obtain ⟨a, ha, hf⟩ := ih h; exact ⟨a, List.mem_cons_of_mem _ ha, hf⟩
 
+theorem inferAll_spec (f : Expr F → Option Ty) : ∀ (es : List (Expr F)) (ts : List Ty), inferAll f es = some ts →
+    es.length = ts.length ∧ ∀ (i : Nat) a ta, es[i]? = some a → ts[i]? = some ta → f a = some ta := by
+  intro es
+  induction es with
+  | nil => intro ts h; simp [inferAll] at h; subst h; exact ⟨rfl, by intro i a ta ha; simp at ha⟩
+  | cons e rest ih =>
+    intro ts h
+    simp only [inferAll] at h
+    split at h
+    · rename_i t ts' he hr
+      simp at h; subst h
+      obtain ⟨hl, hp⟩ := ih ts' hr
+      refine ⟨by simp [hl], ?_⟩
+      intro i a ta ha hta
+      cases i with
+      | zero => simp at ha hta; subst ha hta; exact he
+      | succ j => exact hp j a ta (by simpa using ha) (by simpa using hta)
+    · cases h
+
+theorem predsOk_spec (sig : BSig) : ∀ (ts : List Ty) (k : Nat), predsOk sig k ts = true →
+    ∀ (i : Nat) ta, ts[i]? = some ta → sig.paramAt (k + i) ta = true := by
+  intro ts
+  induction ts with
+  | nil => intro k _ i ta h; simp at h
+  | cons t rest ih =>
+    intro k h i ta hta
+    simp only [predsOk, Bool.and_eq_true] at h
+    cases i with
+    | zero => simp at hta; subst hta; simpa using h.1
+    | succ j =>
+      have := ih (k + 1) h.2 j ta (by simpa using hta)
+      have e : k + (j + 1) = k + 1 + j := by omega
+      rw [e]; exact this
+
+theorem arityOk_spec {sig : BSig} {n : Nat} (h : arityOk sig n = true) :
+    sig.params.length ≤ n ∧ (sig.rest = none → n = sig.params.length) := by
+  simp only [arityOk, Bool.and_eq_true, Bool.or_eq_true, decide_eq_true_eq] at h
+  refine ⟨h.1, fun hr => ?_⟩
+  rcases h.2 with h2 | h2
+  · rw [hr] at h2; simp at h2
+  · exact h2
+
 theorem binTy_sound {op : Op} {t res : Ty} (h : binTy op t = some res) :
     (isEq op = true ∧ res = .bool) ∨
     (isEq op = false ∧ (
@@ -257,19 +299,38 @@ theorem tc_sound : ∀ (n : Nat) (e : Expr F) (ex : Option Ty) (t : Ty),
     | call name args =>
       simp only at h
       split at h
-      · rename_i sig hphi
+      · rename_i bsig hb
         split at h
-        · rename_i t0 hret
+        · rename_i t0 tys hret hinf
           split at h
           · rename_i hc
-            simp only [Bool.and_eq_true, decide_eq_true_eq] at hc
+            simp only [Bool.and_eq_true] at hc
             obtain ⟨rfl, hx⟩ := accept_some h
-            refine ⟨.call name args sig _ hphi hret hc.1 ?_, hx⟩
-            intro i a pt ha hpt
-            exact (ih a (some pt) pt (beq_opt (zip_all args sig.params _ hc.2 i a pt ha hpt))).1
+            obtain ⟨hl, hp⟩ := inferAll_spec _ args tys hinf
+            obtain ⟨ha1, ha2⟩ := arityOk_spec hc.1
+            refine ⟨.builtin name args bsig tys _ hb hret ha1 ha2 hl ?_ ?_, hx⟩
+            · intro i a ta ha hta
+              exact (ih a none ta (hp i a ta ha hta)).1
+            · intro i ta hta
+              have := predsOk_spec bsig tys 0 hc.2 i ta hta
+              simpa using this
           · cases h
         · cases h
-      · cases h
+      · split at h
+        · rename_i sig hphi
+          split at h
+          · rename_i t0 hret
+            split at h
+            · rename_i hc
+              simp only [Bool.and_eq_true, decide_eq_true_eq] at hc
+              obtain ⟨rfl, hx⟩ := accept_some h
+              refine ⟨.call name args sig _ hphi hret hc.1 ?_, hx⟩
+              intro i a pt ha hpt
+              exact (ih a (some pt) pt (beq_opt (zip_all args sig.params _ hc.2 i a pt ha hpt))).1
+            · cases h
+          · cases h
+        · cases h
+
 
 theorem lvOk_spec {lv : Option Str} (h : lvOk lv = true) : ∀ n, lv = some n → n ≠ underscore := by
   intro n hn; subst hn; simpa [lvOk] using h
@@ -463,16 +524,34 @@ theorem tcSB_sound : ∀ (n : Nat),
               | some t => exact ⟨t, (tc_sound Φ _ n a none t ht).1⟩
             · cases h
           · split at h
-            · rename_i sig hphi
+            · rename_i bsig hb
               split at h
-              · rename_i hc
-                simp only [Bool.and_eq_true, decide_eq_true_eq] at hc
-                simp at h; subst h
-                refine .callFn Gs name args sig hphi hc.1 ?_
-                intro i a pt ha hpt
-                exact (tc_sound Φ _ n a (some pt) pt (beq_opt (zip_all args sig.params _ hc.2 i a pt ha hpt))).1
+              · rename_i tys hinf
+                split at h
+                · rename_i hc
+                  simp only [Bool.and_eq_true] at hc
+                  simp at h; subst h
+                  obtain ⟨hl, hp⟩ := inferAll_spec _ args tys hinf
+                  obtain ⟨ha1, ha2⟩ := arityOk_spec hc.1
+                  refine .callBi Gs name args bsig tys hb ha1 ha2 hl ?_ ?_
+                  · intro i a ta ha hta
+                    exact (tc_sound Φ _ n a none ta (hp i a ta ha hta)).1
+                  · intro i ta hta
+                    have := predsOk_spec bsig tys 0 hc.2 i ta hta
+                    simpa using this
+                · cases h
               · cases h
-            · cases h
+            · split at h
+              · rename_i sig hphi
+                split at h
+                · rename_i hc
+                  simp only [Bool.and_eq_true, decide_eq_true_eq] at hc
+                  simp at h; subst h
+                  refine .callFn Gs name args sig hphi hc.1 ?_
+                  intro i a pt ha hpt
+                  exact (tc_sound Φ _ n a (some pt) pt (beq_opt (zip_all args sig.params _ hc.2 i a pt ha hpt))).1
+                · cases h
+              · cases h
         | _ => simp at h
     · intro Gs b h
       cases b with
@@ -489,10 +568,12 @@ global types the harness takes from the real parser — satisfies the hypotheses
 `program_never_goes_wrong` -/
 theorem checkProg_sound (sigs : List (Str × FSig)) (globals : List (Str × Ty)) (prog : Program F) (fuel : Nat)
     (h : checkProg sigs globals prog fuel = true) :
-    ProgOk (fenvOf sigs) (envOf globals) prog ∧ BTyped (fenvOf sigs) (envOf globals) none [] prog.stmts := by
+    ProgOk (fenvOf sigs) (envOf globals) prog ∧ BTyped (fenvOf sigs) (envOf globals) none [] prog.stmts ∧ GgOk (envOf globals) := by
   unfold checkProg at h
   simp only [Bool.and_eq_true] at h
-  obtain ⟨hall, hst⟩ := h
+  obtain ⟨⟨⟨hall, hst⟩, he1⟩, he2⟩ := h
+  refine (fun (x : ProgOk (fenvOf sigs) (envOf globals) prog ∧ BTyped (fenvOf sigs) (envOf globals) none [] prog.stmts) =>
+    ⟨x.1, x.2, ⟨fun t ht => by simpa using optAll_spec he1 t ht, fun t ht => by simpa using optAll_spec he2 t ht⟩⟩) ?_
   have hall' := List.all_eq_true.mp hall
   have entry : ∀ name sig, fenvOf sigs name = some sig → (name, sig) ∈ sigs :=
     fun name sig hs => lookup_mem name sigs sig hs
@@ -521,8 +602,8 @@ theorem checked_program_never_goes_wrong (ops : NumOps F) (ext : Ext F) (hx : Ex
     (fuel : Nat) (st st' : St F) (S : Store) (hok : StOk S [] (envOf globals) st) (w : String) :
     execStmts ops ext prog fuel prog.stmts st ≠ .err (.internal w) st' ∧
     execStmts ops ext prog fuel prog.stmts st ≠ .err (.goPanic w) st' := by
-  obtain ⟨hp, hb⟩ := checkProg_sound sigs globals prog cfuel h
-  exact program_never_goes_wrong ops ext prog (fenvOf sigs) (envOf globals) hx hp fuel st st' S hb hok w
+  obtain ⟨hp, hb, hg⟩ := checkProg_sound sigs globals prog cfuel h
+  exact program_never_goes_wrong ops ext prog (fenvOf sigs) (envOf globals) hx hg hp fuel st st' S hb hok w
 
 /-- the globals every program starts with and their types -/
 def builtinGlobals : List (Str × Ty) := [(lit "err", .bool), (lit "errmsg", .str), (lit "pi", .num)]
